@@ -999,7 +999,10 @@ def run_program(name, mon, rng):
         tb = traceback.extract_tb(e.__traceback__)
         if is_readonly_error(e):
             frames = [(os.path.abspath(f.filename), f.lineno, f.name, f.line) for f in tb]
-            inner = frames[-1]
+            # innermost frame that belongs to funsor or to this harness (numpy/opt_einsum-internal Python
+            # frames in between are attributed to whoever called them)
+            own = [fr for fr in frames if fr[0].startswith(FUNSOR_DIR) or fr[0] == THIS_FILE]
+            inner = own[-1] if own else frames[-1]
             in_funsor = [fr for fr in frames if fr[0].startswith(FUNSOR_DIR)]
             if inner[0].startswith(FUNSOR_DIR):
                 return "violation", {"exception": msg, "where": f"{os.path.relpath(inner[0], FUNSOR_DIR)}:{inner[1]} in {inner[2]}: {inner[3]}",
